@@ -24,7 +24,9 @@ Kinds == {"domain", "v4", "v6"}
      v6      "generic" | "unspecified" (::) | "loopback" (::1) | "v4compat" (::a.b.c.d) | "v4mapped" (::ffff:a.b.c.d) |
              "linklocal" | "multicast"           v4   "generic" | "zero" | "broadcast" | "loopback"
    n is always the number of BYTES of the host field.                                                              *)
-DomainShapes == {"ascii", "utf8x2", "utf8x3", "latin1"}
+\* "dotted": an absolute name, its last byte is '.'; "dotdigits": digits and dots that are no IPv4 address; "upper": upper-case
+\* letters - forms a well-meant normalisation would touch; the name travels as the bytes it was given
+DomainShapes == {"ascii", "utf8x2", "utf8x3", "latin1", "dotted", "dotdigits", "upper"}
 V6Shapes == {"generic", "unspecified", "loopback", "v4compat", "v4mapped", "linklocal", "multicast"}
 V4Shapes == {"generic", "zero", "broadcast", "loopback"}
 Addrs == {[kind |-> "domain", n |-> n, shape |-> sh] : n \in NameLens, sh \in DomainShapes}
